@@ -55,6 +55,7 @@ func pCases(prop, tier string) []Case {
 	case "C01":
 		add(pDesc{Kind: "roundtrip"})
 		add(pDesc{Kind: "roundtrip", Ext: "ext"})
+		add(pDesc{Kind: "slow-reader"})
 	case "C10":
 		add(pDesc{Kind: "concurrent", Arg: "2"})
 		add(pDesc{Kind: "concurrent", Arg: "3"})
@@ -305,6 +306,39 @@ func runP(c *Ctx, d pDesc) {
 	}
 
 	switch d.Kind {
+	case "slow-reader":
+		// caller 1 reads its (large) response slowly; meanwhile caller 2 is served. Each must receive its own bytes.
+		rnd := rng(c.Seed, "binary-slow-reader")
+		body1, body2 := randBytes(rnd, maxPayload-4), randBytes(rnd, maxPayload-100000) // larger than any socket buffer: part of response 1 is still in user space
+		dl := net.Dialer{Timeout: 2 * time.Second, Control: func(network, address string, rc syscall.RawConn) error {
+			return rc.Control(func(fd uintptr) { syscall.SetsockoptInt(int(fd), syscall.SOL_SOCKET, syscall.SO_RCVBUF, 4096) })
+		}}
+		conn, err := dl.Dial("tcp", r.front)
+		if err != nil {
+			c.Inconclusive("cannot connect to the emulator: " + err.Error())
+			return
+		}
+		defer conn.Close()
+		fmt.Fprintf(conn, "POST /2015-03-31/functions/function/invocations HTTP/1.1\r\nHost: x\r\nContent-Length: %d\r\nConnection: close\r\n\r\n", len(body1))
+		go conn.Write(body1)
+		br := bufio.NewReaderSize(conn, 512)
+		conn.SetReadDeadline(time.Now().Add(30 * time.Second))
+		resp1, err := http.ReadResponse(br, nil)
+		if err != nil {
+			c.Check(false, "binary_slow_reader", P+"/binary/slow-reader/no-response", "slow caller got no response head", err.Error())
+			return
+		}
+		// the head is here, the body is stuck behind a 4 KiB window: now the second caller comes and goes
+		time.Sleep(50 * time.Millisecond)
+		h2 := r.invoke(body2, nil)
+		c.Check(h2.Err == nil && h2.Code == 200 && bytes.Equal(h2.Body, append([]byte("BIN:"), body2...)), "binary_second_caller_exact", P+"/binary/slow-reader/second-caller", fmt.Sprintf("second caller (while the first still reads): status %d err %v, %d bytes", h2.Code, h2.Err, len(h2.Body)), nil)
+		conn.SetReadDeadline(time.Now().Add(60 * time.Second))
+		got1, err := io.ReadAll(resp1.Body)
+		want1 := append([]byte("BIN:"), body1...)
+		if !c.Check(err == nil && bytes.Equal(got1, want1), "binary_slow_reader_exact", P+"/binary/slow-reader/first-caller-bytes", fmt.Sprintf("the slow caller received %d bytes (err %v), first difference at %d of %d: it must get its own response, whatever was served meanwhile", len(got1), err, firstDiff(got1, want1), len(want1)), nil) {
+			return
+		}
+		expectOK("slow-reader-after", []byte("after"))
 	case "roundtrip":
 		rnd := rng(c.Seed, "binary-roundtrip")
 		for i, sz := range []int{0, 1, 1000, 1 << 20, maxPayload, 17, 300000, 9} {
